@@ -259,7 +259,8 @@ template<int DD> void history_t(Case& c) {
 				{ std::vector<L> ne = B.m.ext; std::swap(ne[1], ne[std::size_t(D - 1)]); if(ne == B.m.ext) break; Model tm = fresh(ne); A.a.reset(); A.a.emplace(make_extensions<D>(ne), mk(0)); write_ids(*A.a, tm); A.m = tm; A.m.base.assign(std::size_t(D), 0); A.m.base_known = true; A.aid = 0; A.agen = 0; }
 				opk = "assign(first,last)(rows,same-count-other-inner-extents)"; d << opk << "(" << a << "<-rows of " << b << ")"; cur_op = d.str(); op(opk); softcfg().opk = opk; if constexpr(DD >= 3) { A.a->assign(B.a->begin(), B.a->end()); } A.m.ext = B.m.ext; A.m.ids = B.m.ids; A.m.base_known = false; break; }
 			case 25: if constexpr(DD >= 1) { Model nm = fresh(e); if(nm.n() == 0) break; opk = "ctor(array_ref)"; d << opk << "(" << a << "," << estr() << ")"; cur_op = d.str(); op(opk); softcfg().opk = opk;  // an owning array built from a non-owning reference over foreign storage (non-const and const reference objects)
-				std::vector<Elem> buf; for(long id : nm.ids) buf.push_back(mk(id)); multi::array_ref<Elem, D> R(make_extensions<D>(e), buf.data()); A.a.reset(); if(g.chance(1, 2)) A.a.emplace(R); else A.a.emplace(std::as_const(R));
+				std::vector<Elem> buf; for(long id : nm.ids) buf.push_back(mk(id)); multi::array_ref<Elem, D> R(make_extensions<D>(e), buf.data()); A.a.reset(); { int const f = int(g.below(4)); if(f == 0) A.a.emplace(R); else if(f == 1) A.a.emplace(std::as_const(R)); else if(f == 2) A.a.emplace(std::move(R)); else A.a.emplace(multi::array_ref<Elem, D>(make_extensions<D>(e), buf.data())); }  // an array_ref is a reference: copying from an expiring one still copies the elements
+				for(L k = 0; k < nm.n(); ++k) if(id_of(buf[std::size_t(k)]) != nm.ids[std::size_t(k)]) { V("C04:ctor(array_ref):source-modified", "constructing an array from an array_ref (any value category) changed the referenced elements"); break; }
 				if(A.a->data_elements() == buf.data()) V("C04:ctor(array_ref):storage-shared", "an array constructed from an array_ref uses the referenced storage"); A.m = nm; A.m.base.assign(std::size_t(D), 0); A.m.base_known = true; A.aid = 0; A.agen = 0; } break;
 			case 24: { opk = "destroy"; d << opk << "(" << a << ")"; cur_op = d.str(); op(opk); softcfg().opk = opk; A.a.reset(); A.m = Model{}; break; }
 			default: if constexpr(DD >= 1) { if(!A.a) break; opk = "default-ctor+assign"; d << opk << "(" << a << ")"; cur_op = d.str(); op(opk); softcfg().opk = opk; Arr tmp; tmp = *A.a; std::string why; Model mm = A.m; if(!matches(tmp, mm, why)) V("C04:default-ctor+assign:array-differs-from-model", why); break; } break;
